@@ -231,6 +231,31 @@ fn run_case<C: Suite>(c: &Case) -> Outcome {
         // another participant's whole package under the sender's slot
         r1_faults.push(("other-participants-package".into(), a.p1[other].clone(), Want::Exact));
     }
+    {
+        // a proof whose PUBLISHED nonce commitment is the negation of the one its response was computed for:
+        // R' = -(k G), c = HDKG(sender || phi_0 || R'), z = k + a_0 c; then z G - c phi_0 = -R' != R'
+        use frost_core::Ciphersuite;
+        let k = sc_seeded_nz::<C>("negated-nonce-proof");
+        let rpub = G::<C>::identity() - gen_mul::<C>(k);
+        let mut pre = s.serialize();
+        if let (Some(p0), Some(rb)) = (el_bytes::<C>(&ce[0]), el_bytes::<C>(&rpub)) {
+            pre.extend_from_slice(&p0);
+            pre.extend_from_slice(&rb);
+            if let Some(cc) = C::HDKG(&pre) {
+                let z = k + a.sp1[&s].coefficients()[0] * cc;
+                // control: with the honest R = k G the same construction IS a valid proof
+                let mut pre2 = s.serialize();
+                pre2.extend_from_slice(&p0);
+                pre2.extend_from_slice(&el_bytes::<C>(&gen_mul::<C>(k)).unwrap());
+                let good = Signature::new(gen_mul::<C>(k), k + a.sp1[&s].coefficients()[0] * C::HDKG(&pre2).unwrap());
+                if fc::keys::dkg::verify_proof_of_knowledge(s, sp.commitment(), &good).is_err() {
+                    o.fail(format!("{tag}/CONTROL-handmade-proof-invalid"), format!("{ctx}: the harness's own proof construction is not accepted"));
+                } else {
+                    r1_faults.push(("proof-for-negated-nonce-commitment".into(), d1::Package::new(sp.commitment().clone(), Signature::new(rpub, z)), Want::Exact));
+                }
+            }
+        }
+    }
     r1_faults.push(("proof-of-other-run".into(), d1::Package::new(sp.commitment().clone(), *b.p1[&s].proof_of_knowledge()), Want::Exact));
     {
         let mut tr = ce.clone();
@@ -274,6 +299,12 @@ fn run_case<C: Suite>(c: &Case) -> Outcome {
         m.insert(r, pkg);
         let res = C::w_part2(a.sp1[&r].clone(), &m);
         judge(&mut o, what, "part2", res.err(), Want::Subset);
+    }
+    // surplus entry under the receiver's own identifier, all peers present
+    for (what, pkg) in [("round1-surplus-under-own-id-own-package", a.p1[&r].clone()), ("round1-surplus-under-own-id-senders-package", a.p1[&s].clone())] {
+        let mut m = honest_r1.clone();
+        m.insert(r, pkg);
+        judge(&mut o, what, "part2", C::w_part2(a.sp1[&r].clone(), &m).err(), Want::Subset);
     }
     {
         let mut m = honest_r1.clone();
@@ -371,6 +402,15 @@ fn run_case<C: Suite>(c: &Case) -> Outcome {
         let mut m = honest_r2.clone();
         m.insert(stranger, p.clone());
         judge(&mut o, "round2-surplus", "part3", C::w_part3(&h_sp2, &honest_r1, &m).err(), Want::Subset);
+        // surplus entries under the receiver's OWN identifier, all peers present (round two; round one at
+        // part3; both maps at part3)
+        let mut m = honest_r2.clone();
+        m.insert(r, p.clone());
+        judge(&mut o, "round2-surplus-under-own-id", "part3", C::w_part3(&h_sp2, &honest_r1, &m).err(), Want::Subset);
+        let mut m1 = honest_r1.clone();
+        m1.insert(r, a.p1[&r].clone());
+        judge(&mut o, "round1-surplus-under-own-id-at-part3", "part3", C::w_part3(&h_sp2, &m1, &honest_r2).err(), Want::Subset);
+        judge(&mut o, "both-maps-surplus-under-own-id", "part3", C::w_part3(&h_sp2, &m1, &m).err(), Want::Subset);
         // the sender went silent after round one and the receiver consistently drops it from both maps
         let mut m1 = honest_r1.clone();
         m1.remove(&s);
